@@ -109,3 +109,21 @@ impl Obj {
         format!("{{{}}}", parts.join(","))
     }
 }
+
+/// Describes the first difference between two byte strings with some context.
+pub fn diff_window(real: &[u8], model: &[u8]) -> String {
+    let mut i = 0;
+    while i < real.len() && i < model.len() && real[i] == model[i] {
+        i += 1;
+    }
+    let lo = i.saturating_sub(70);
+    format!(
+        "first difference at byte {} (real len {}, model len {}); context {:?}; real continues {:?}; model continues {:?}",
+        i,
+        real.len(),
+        model.len(),
+        show(&real[lo..i]),
+        show(&real[i..(i + 90).min(real.len())]),
+        show(&model[i..(i + 90).min(model.len())])
+    )
+}
